@@ -1,7 +1,7 @@
 #!/bin/bash
 # confirm_seed.sh <PROP> <x>: confirm a sub-agent's change in a fresh scratch worktree; on success keep it in /verif/seeded/
 P=$1; X=$2
-SRC=/tmp/seed/$P/_out/$X
+SRC=${SEEDBASE:-/tmp/seed}/$P/_out/$X
 WT=/tmp/seedchk_$P$X
 [ -f $SRC/patch.diff ] || { echo "$P/$X: no patch"; exit 1; }
 git -C /repo worktree add -f $WT HEAD >/dev/null 2>&1 || exit 1
